@@ -614,6 +614,85 @@ Definition copy_flow (self : cindexer) (other : stream) (i : ids) (remove exclud
         if remove then remove_from other idx else other)
   end.
 
+(* ---------- MultiStream.copy_flow (receiver multi-phase) ---------- *)
+Inductive psel := PhAll | PhOne (p : phase).
+(* "self.chemicals is other.chemicals or self.chemicals.IDs == other.chemicals.IDs" *)
+Definition same_ids (a b : pkg) : bool := same_pkg a b || list_eqb Nat.eqb (cas a) (cas b).
+(* chemicals.get_index(IDs): slice / int / list of positions *)
+Definition ids_index (pk : pkg) (i : ids) : res (list nat) :=
+  match i with
+  | IdAll => Ok (seq 0 (psize pk))
+  | IdOne c => match index_of c (cas pk) with Some j => Ok [j] | None => Err EOther end
+  | IdList l => indices_of l pk
+  end.
+(* imol.get_phase_index(phase): a slice over all rows, or one row *)
+Definition row_selected (ps : option nat) (k : nat) : bool :=
+  match ps with None => true | Some i => Nat.eqb i k end.
+Definition phase_sel (phases : list phase) (ps : psel) : res (option nat) :=
+  match ps with PhAll => Ok None | PhOne p => do i <- phase_index p phases; Ok (Some i) end.
+(* the row of a 2-d value that lands in receiver row k: one row is broadcast, otherwise rows are
+   zipped (the shorter side wins) *)
+Definition value_row (orows : list vec) (k : nat) : option vec :=
+  match orows with
+  | [r] => Some r
+  | _ => nth_error orows k
+  end.
+Definition mapi {A B} (f : nat -> A -> B) (l : list A) : list B :=
+  map (fun kr => f (fst kr) (snd kr)) (combine (seq 0 (length l)) l).
+Definition keep_at (src : vec) (idx : list nat) : vec := set_at (vzero (length src)) idx src.
+
+Definition copy_flow_m (self : mindexer) (other : stream) (ps : psel) (i : ids) (remove exclude : bool)
+  : res (stream * stream) :=
+  if negb (same_ids (mpkg self) (spkg other)) then Err EValue else
+  do idx <- ids_index (mpkg self) i;
+  do sel <- phase_sel (mphases self) ps;
+  (* exclude + remove: "excluded_data = other_data[phase, IDs]; other_data[:] = 0.; other_data[phase, IDs] =
+     excluded_data" -- with IDs = ... the slice returns the row objects themselves, which the second statement
+     clears, so nothing is kept *)
+  let keep := fun (row : vec) => match i with IdAll => vzero (length row) | _ => keep_at row idx end in
+  match other with
+  | MS o =>
+    let n_o := length (mrows o) in
+    do _ <- (match sel with
+             | Some pi => if (remove || negb exclude) && negb (Nat.ltb pi n_o) then Err EIndex else Ok tt
+             | None => Ok tt
+             end);
+    if exclude then
+      (* data[:] = other_data ; data[phase, IDs] = original[phase, IDs] *)
+      let rows1 := mapi (fun k row => match value_row (mrows o) k with Some v => v | None => row end) (mrows self) in
+      let rows2 := mapi (fun k row => if row_selected sel k then set_at row idx (nth k (mrows self) []) else row) rows1 in
+      let orows := if remove
+                   then mapi (fun k row => if row_selected sel k then keep row else vzero (length row)) (mrows o)
+                   else mrows o in
+      Ok (MS (mkm (mpkg self) (mphases self) rows2), MS (mkm (mpkg o) (mphases o) orows))
+    else
+      (* data[phase, IDs] = other_data[phase, IDs] *)
+      let rows' :=
+        match sel with
+        | None => mapi (fun k row => match value_row (mrows o) k with Some v => set_at row idx v | None => row end) (mrows self)
+        | Some pi => mapi (fun k row => if Nat.eqb pi k then set_at row idx (nth pi (mrows o) []) else row) (mrows self)
+        end in
+      let orows := if remove
+                   then mapi (fun k row => if row_selected sel k then zero_at row idx else row) (mrows o)
+                   else mrows o in
+      Ok (MS (mkm (mpkg self) (mphases self) rows'), MS (mkm (mpkg o) (mphases o) orows))
+  | SS o =>
+    do opi <- phase_index (cphase o) (mphases self);
+    let hit := match sel with None => true | Some pi => Nat.eqb pi opi end in
+    if exclude then
+      (* data[other_phase, :] = other ; data[phase, IDs] = original[phase, IDs] *)
+      let rows1 := upd (mrows self) opi (crow o) in
+      let rows2 := mapi (fun k row => if row_selected sel k then set_at row idx (nth k (mrows self) []) else row) rows1 in
+      let orow := if remove && hit then keep (crow o) else crow o in
+      Ok (MS (mkm (mpkg self) (mphases self) rows2), SS (mkc (cpkg o) (cphase o) orow))
+    else
+      (* data[:] = 0 ; if the phase matches: data[other_phase, IDs] = other[IDs] *)
+      let blank := map (fun r => vzero (length r)) (mrows self) in
+      let rows' := if hit then upd blank opi (set_at (nth opi blank []) idx (crow o)) else blank in
+      let orow := if hit && remove then zero_at (crow o) idx else crow o in
+      Ok (MS (mkm (mpkg self) (mphases self) rows'), SS (mkc (cpkg o) (cphase o) orow))
+  end.
+
 (* ---------- scale / __mul__ ---------- *)
 Definition scale (k : Q) (s : stream) : stream :=
   match s with
@@ -627,6 +706,7 @@ Inductive op :=
 | OSplit (f s1 s2 : nat) (sp : splitv) (eb : bool)
 | OSep (r o : nat)
 | OCopyFlow (d s : nat) (i : ids) (remove exclude : bool)
+| OCopyFlowM (d s : nat) (ps : psel) (i : ids) (remove exclude : bool)
 | OScale (i : nat) (k : Q)
 | OMul (i : nat) (k : Q).
 
@@ -645,8 +725,16 @@ Definition step (st : store) (o : op) : res store :=
     do ds <- gets st d; do ss <- gets st s;
     if Nat.eqb d s then Err EOther                          (* not modelled: copying onto itself *)
     else match ds with
-         | MS _ => Err EOther                               (* MultiStream.copy_flow is not modelled *)
+         | MS _ => Err EOther                               (* MultiStream.copy_flow: see OCopyFlowM *)
          | SS c => do r <- copy_flow c ss i remove exclude;
+                   Ok (upd (upd st d (fst r)) s (snd r))
+         end
+  | OCopyFlowM d s ps i remove exclude =>
+    do ds <- gets st d; do ss <- gets st s;
+    if Nat.eqb d s then Err EOther                          (* not modelled: copying onto itself *)
+    else match ds with
+         | SS _ => Err EOther                               (* Stream.copy_flow has no phase selector *)
+         | MS m => do r <- copy_flow_m m ss ps i remove exclude;
                    Ok (upd (upd st d (fst r)) s (snd r))
          end
   | OScale i k => do s <- gets st i; Ok (upd st i (scale k s))
